@@ -2493,7 +2493,7 @@ class UTPM(Ring, RawAlgorithmsMixIn):
 
             ybar2, tmp = cls.broadcast(ybar, zbar)
 
-            workaround_strides_function(xbar2, zbar * x, operator.iadd)
+            workaround_strides_function(ybar2, zbar * x, operator.iadd)
             # ybar2 += zbar * x
 
             return (xbar, ybar)
